@@ -270,10 +270,13 @@ constexpr int ALLOW_INSERT = 1, ALLOW_UPDATE = 2, ALLOW_BOTH = 3;
 //   insert_range: 0 vector<pair>, 1 list<pair>, 2 map (sorted, unique), 3 fifo iterator pair
 //   erase_range : 0 vector, 1 set (sorted, unique), 3 fifo iterator pair
 //   find_range  : 0 vector, 1 set (sorted, unique), 3 fifo iterator pair with distance, 4 fifo iterator pair w/o distance
-//   find_fill   : 0 vector<pair<k,opt>>, 2 map<k,opt> (sorted, unique), 3 fifo iterator pair
+//   find_fill   : 0 vector<pair<k,opt>>, 2 map<k,opt> (sorted, unique), 3 fifo iterator pair,
+//                 5 vector / 6 map whose slots already hold stale values from an earlier round
 inline bool form_sorted(OpKind k, int form)
 {
-    if (k == OpKind::insert_range || k == OpKind::find_fill)
+    if (k == OpKind::find_fill)
+        return form == 2 || form == 6;
+    if (k == OpKind::insert_range)
         return form == 2;
     if (k == OpKind::erase_range || k == OpKind::find_range)
         return form == 1;
